@@ -149,7 +149,12 @@ impl WriterThreadPool {
                         senders.iter().map(|sender| sender.downgrade()).collect();
                     move || {
                         #[cfg(feature = "verif")]
-                        if seglog::verif::installed() {
+                        let verif_sim = seglog::verif::installed();
+                        #[cfg(feature = "verif")]
+                        if verif_sim
+                            && seglog::verif::point("syncer:start", 0, 0)
+                                != seglog::verif::Action::Yield
+                        {
                             // The simulator owns the timer: it sends FlushPoll itself.
                             return;
                         }
@@ -163,6 +168,20 @@ impl WriterThreadPool {
                                 sync_idle_interval
                             };
 
+                            // Simulated: this loop runs for real, but its sleep is a point at which
+                            // the simulator parks the thread until its clock has moved on.
+                            #[cfg(feature = "verif")]
+                            let sleep_duration = if verif_sim {
+                                let remaining = sleep_duration.saturating_sub(last_ran.elapsed());
+                                if seglog::verif::point("syncer:sleep", remaining.as_nanos() as u64, 0)
+                                    == seglog::verif::Action::Fail
+                                {
+                                    break;
+                                }
+                                Duration::ZERO
+                            } else {
+                                sleep_duration
+                            };
                             thread::sleep(sleep_duration.saturating_sub(last_ran.elapsed()));
                             last_ran = Instant::now();
 
@@ -213,6 +232,15 @@ impl WriterThreadPool {
             }
             None => false,
         }
+    }
+
+    /// Requests queued for one writer thread (simulator bookkeeping after a real syncer tick).
+    #[cfg(feature = "verif")]
+    pub fn verif_queue_len(&self, thread: usize) -> usize {
+        self.senders
+            .get(thread)
+            .map(|sender| sender.max_capacity() - sender.capacity())
+            .unwrap_or(0)
     }
 
     #[cfg(feature = "verif")]
